@@ -416,6 +416,8 @@ theorem validate_inv (sigValid : SigOracle) (cfg : CacheConfig)
     simp only
     refine ⟨?_, Or.inl ⟨rfl, rfl⟩⟩
     intro e he
+    split at he
+    · exact provenance_mono r (hinv e he)
     unfold cacheInsert at he
     cases hft : r.records.head?.map (·.ttl) with
     | none =>
@@ -683,6 +685,13 @@ theorem cache_sound_u32 (sigValid : SigOracle) (cfg : CacheConfig) (hist : List 
     [] hist _ (cache_provenanceG sigValid cfg serve hist)
     (fun r hr => ⟨hb r hr, hb r hr⟩) (by simp) hkey
 
+/-- **A failed DNSKEY lookup leaves the cache unchanged**: the RRset is Bogus for this response only
+("these could be transient errors that should be retried"); nothing is learnt, nothing is forgotten. -/
+theorem net_error_not_cached (sigValid : SigOracle) (cfg : CacheConfig) (c : Cache) (r : Request)
+    (hn : r.netError = true) (hl : noLookup r = false) (hmiss : cacheGetE c r.ck r.inst = none) :
+    validate sigValid cfg c r = (c, { isOk := false, proof := .bogus, adjustedTtl := none }, true) := by
+  simp [validate, validateG, hmiss, freshVerdict, hn, hl]
+
 /-! ### several RRSIGs per RRset; the 64-bit wall clock -/
 
 theorem firstCandidate_spec (keyName : Name) (keyType : Nat) (start : Nat) (sigs : List Rrsig)
@@ -802,7 +811,7 @@ def recA (ttl : Nat) (o : Bytes) : Record := ⟨nameA, 1, 1, ttl, .a o⟩
 def acceptAll : SigOracle := fun _ _ _ => true
 /-- validate `a. A 10.0.0.1` (TTL `ttl`) at validator time `now`, monotonic time `inst` -/
 def reqA (ttl now inst : Nat) : Request :=
-  ⟨[1], [(key0, .secure)], sig0, nameA, 1, [recA ttl [10, 0, 0, 1]], now, inst, false⟩
+  ⟨[1], [(key0, .secure)], sig0, nameA, 1, [recA ttl [10, 0, 0, 1]], now, inst, false, false⟩
 
 /-- `secure_implies_checks` / `ttl_le_remaining` are not vacuous: inside the window the verdict is
 Secure with TTL `min 3600 3600 (1010 − 1000) = 10`; one second after expiration, and at distance
@@ -831,7 +840,7 @@ undefined; it is now never Secure, like every RRSIG whose expiration is before i
 example :
     let sigW : Rrsig := { sig0 with input := { sig0.input with inception := 1010 + HALF } }
     let sigE : Rrsig := { sig0 with input := { sig0.input with inception := 2000, expiration := 1000 } }
-    let req : Rrsig → Nat → Request := fun sg now => ⟨[1], [(key0, .secure)], sg, nameA, 1, [recA 3600 [10, 0, 0, 1]], now, 0, false⟩
+    let req : Rrsig → Nat → Request := fun sg now => ⟨[1], [(key0, .secure)], sg, nameA, 1, [recA 3600 [10, 0, 0, 1]], now, 0, false, false⟩
     (freshVerdict acceptAll (req sigW 1009)).proof = .bogus ∧
     (freshVerdict acceptAll (req sigW 1010)).proof = .bogus ∧
     (freshVerdict acceptAll (req sigE 999)).proof = .bogus ∧
